@@ -134,4 +134,183 @@ theorem rect_idft2 {nr nc : ℕ} (hr : 0 < nr) (hc : 0 < nc) {x : Img ℝ} (hx :
   obtain ⟨g, rfl⟩ := hx.cx_build
   rw [idft2_build hr hc]; exact rect_build _ _ _
 
+
+/-! ### multislice overlap: energy is carried through every slice -/
+theorem rect_of_eq_build {β : Type} {nr nc : ℕ} {x : List (List β)} {g : ℕ → ℕ → β} (h : x = build nr nc g) :
+    Rect nr nc x := h ▸ rect_build nr nc g
+
+/-- one multislice step: propagate with a unit-modulus kernel, transmit through a unit-modulus slice -/
+theorem overlap_foldl_energy {nr nc : ℕ} (hr : 0 < nr) (hc : 0 < nc) (l : List (Img ℝ × Img ℝ))
+    (hl : ∀ pp ∈ l, (Rect nr nc pp.1 ∧ UnitModulus pp.1) ∧ (Rect nr nc pp.2 ∧ UnitModulus pp.2))
+    (acc : List (Img ℝ) × Img ℝ) (hacc : Rect nr nc acc.2) :
+    let out := l.foldl (fun acc pp => (acc.1 ++ [propagate acc.2 pp.1], mulImg pp.2 (propagate acc.2 pp.1))) acc
+    Rect nr nc out.2 ∧ energy out.2 = energy acc.2 := by
+  induction l generalizing acc with
+  | nil => exact ⟨hacc, rfl⟩
+  | cons pp rest ih =>
+    obtain ⟨⟨hP, hPu⟩, ⟨hO, hOu⟩⟩ := hl pp List.mem_cons_self
+    have hprop : Rect nr nc (propagate acc.2 pp.1) := rect_propagate hr hc hacc hP
+    have hnext : Rect nr nc (mulImg pp.2 (propagate acc.2 pp.1)) := rect_mulImg hO hprop
+    have := ih (fun q hq => hl q (List.mem_cons_of_mem _ hq))
+      (acc.1 ++ [propagate acc.2 pp.1], mulImg pp.2 (propagate acc.2 pp.1)) hnext
+    simp only [List.foldl_cons]
+    refine ⟨this.1, ?_⟩
+    rw [this.2]
+    show energy (mulImg pp.2 (propagate acc.2 pp.1)) = energy acc.2
+    rw [energy_mulImg_unit hprop hO hOu, energy_propagate hr hc hacc hP hPu]
+
+theorem overlapProjection1_energy {nr nc : ℕ} (hr : 0 < nr) (hc : 0 < nc) (patches props : List (Img ℝ))
+    (probe : Img ℝ) (hprobe : Rect nr nc probe)
+    (hpatch : ∀ O ∈ patches, Rect nr nc O ∧ UnitModulus O)
+    (hprops : ∀ P ∈ props, Rect nr nc P ∧ UnitModulus P) :
+    Rect nr nc (overlapProjection1 patches props probe).2
+      ∧ energy (overlapProjection1 patches props probe).2 = energy probe := by
+  cases patches with
+  | nil => exact ⟨hprobe, rfl⟩
+  | cons p0 rest =>
+    obtain ⟨h0, h0u⟩ := hpatch p0 List.mem_cons_self
+    have hstart : Rect nr nc (mulImg p0 probe) := rect_mulImg h0 hprobe
+    have := overlap_foldl_energy hr hc (List.zip props rest)
+      (fun pp hpp => ⟨hprops _ (List.of_mem_zip hpp).1,
+        hpatch _ (List.mem_cons_of_mem _ (List.of_mem_zip hpp).2)⟩)
+      ([probe], mulImg p0 probe) hstart
+    exact ⟨this.1, this.2.trans (energy_mulImg_unit hprobe h0 h0u)⟩
+
+/-! ### detector: summed intensity = total exit-wave energy -/
+theorem rsum_eq (x : RImg ℝ) : rsum x = (x.map List.sum).sum := by
+  unfold rsum
+  rw [numSum_eq]
+  congr 1
+  exact List.map_congr_left fun row _ => numSum_eq row
+
+theorem sum_map_fftshift {β : Type} (f : β → ℝ) (l : List β) : ((Dft.fftshift l).map f).sum = (l.map f).sum := by
+  unfold Dft.fftshift
+  simp only [List.map_append, List.sum_append]
+  rw [add_comm, ← List.sum_append, ← List.map_append, List.take_append_drop]
+
+theorem rsum_fftshift2 (x : RImg ℝ) : rsum (fftshift2 x) = rsum x := by
+  rw [rsum_eq, rsum_eq]
+  unfold fftshift2
+  rw [sum_map_fftshift, List.map_map]
+  congr 1
+  apply List.map_congr_left
+  intro row _
+  have := sum_map_fftshift (fun a : ℝ => a) row
+  simpa using this
+
+theorem rsum_build (nr nc : ℕ) (g : ℕ → ℕ → ℝ) : rsum (build nr nc g) = ∑ i ∈ range nr, ∑ j ∈ range nc, g i j := by
+  rw [rsum_eq]
+  unfold build
+  rw [vbuild_map, sum_vbuild]
+  exact sum_congr rfl fun i _ => sum_vbuild nc (g i)
+
+theorem sumModes_rsum {nr nc : ℕ} (l : List (RImg ℝ)) (hl : ∀ x ∈ l, Rect nr nc x) (z : RImg ℝ) (hz : Rect nr nc z) :
+    Rect nr nc (sumModes z l) ∧ rsum (sumModes z l) = rsum z + (l.map rsum).sum := by
+  induction l generalizing z with
+  | nil => exact ⟨hz, by simp [sumModes]⟩
+  | cons x rest ih =>
+    obtain ⟨f, rfl⟩ := hz.exists_build
+    obtain ⟨g, rfl⟩ := (hl x List.mem_cons_self).exists_build
+    have hstep : List.zipWith (List.zipWith (· + ·)) (build nr nc f) (build nr nc g)
+        = build nr nc (fun i j => f i j + g i j) := zipWith_build nr nc _ f g
+    have := ih (fun y hy => hl y (List.mem_cons_of_mem _ hy)) _ (rect_of_eq_build hstep)
+    unfold sumModes at this ⊢
+    simp only [List.foldl_cons, List.map_cons, List.sum_cons]
+    refine ⟨this.1, ?_⟩
+    rw [this.2, hstep, rsum_build, rsum_build, rsum_build]
+    simp only [NumReal.add_eq, sum_add_distrib]
+    ring
+
+theorem fft2Ortho_build {nr nc : ℕ} (hr : 0 < nr) (hc : 0 < nc) (g : ℕ → ℕ → Cx ℝ) :
+    fft2Ortho (build nr nc g)
+      = build nr nc (fun k l => Cx.smul (1 / Real.sqrt ((nr * nc : ℕ) : ℝ)) (dft2C nr nc g k l)) := by
+  unfold fft2Ortho scaleImg
+  rw [nrows_build, ncols_build hr, dft2_build hr hc, build_map]
+  apply build_congr
+  intro k _ l _
+  simp [dft2C]
+
+theorem ifft2Ortho_build {nr nc : ℕ} (hr : 0 < nr) (hc : 0 < nc) (g : ℕ → ℕ → Cx ℝ) :
+    ifft2Ortho (build nr nc g)
+      = build nr nc (fun k l => Cx.smul (Real.sqrt ((nr * nc : ℕ) : ℝ)) (idft2C nr nc g k l)) := by
+  unfold ifft2Ortho scaleImg
+  rw [nrows_build, ncols_build hr, idft2_build hr hc, build_map]
+  apply build_congr
+  intro k _ l _
+  simp [idft2C]
+
+theorem sqrt_size_ne_zero {nr nc : ℕ} (hr : 0 < nr) (hc : 0 < nc) : Real.sqrt ((nr * nc : ℕ) : ℝ) ≠ 0 := by
+  have : (0 : ℝ) < ((nr * nc : ℕ) : ℝ) := by exact_mod_cast Nat.mul_pos hr hc
+  exact (Real.sqrt_pos.2 this).ne'
+
+/-- pixel intensities `|fft2_ortho w|²` (as written: `sqrt(re²+im²)²`) of one mode -/
+noncomputable def modeIntensity (w : Img ℝ) : RImg ℝ := (fft2Ortho w).map (·.map fun z => Num.sq (Cx.abs z))
+
+theorem modeIntensity_build {nr nc : ℕ} (hr : 0 < nr) (hc : 0 < nc) (g : ℕ → ℕ → Cx ℝ) :
+    modeIntensity (build nr nc g)
+      = build nr nc (fun k l => Complex.normSq (toC (dft2C nr nc g k l)) / ((nr * nc : ℕ) : ℝ)) := by
+  unfold modeIntensity
+  rw [fft2Ortho_build hr hc, build_map]
+  apply build_congr
+  intro k _ l _
+  rw [sq_abs, toC_smul, Complex.normSq_mul, Complex.normSq_ofReal]
+  have hpos : (0 : ℝ) ≤ ((nr * nc : ℕ) : ℝ) := Nat.cast_nonneg _
+  have hs := Real.mul_self_sqrt hpos
+  have h : (1 / Real.sqrt ((nr * nc : ℕ) : ℝ)) * (1 / Real.sqrt ((nr * nc : ℕ) : ℝ)) = 1 / ((nr * nc : ℕ) : ℝ) := by
+    rw [div_mul_div_comm, one_mul, hs]
+  rw [h]; ring
+
+theorem rsum_modeIntensity {nr nc : ℕ} (hr : 0 < nr) (hc : 0 < nc) {w : Img ℝ} (hw : Rect nr nc w) :
+    Rect nr nc (modeIntensity w) ∧ rsum (modeIntensity w) = energy w := by
+  obtain ⟨g, rfl⟩ := hw.cx_build
+  rw [modeIntensity_build hr hc]
+  refine ⟨rect_build _ _ _, ?_⟩
+  rw [rsum_build]
+  have hpar := energy_dft2C hr hc g
+  rw [energy_build] at hpar
+  have hne : ((nr * nc : ℕ) : ℝ) ≠ 0 := by exact_mod_cast Nat.ne_of_gt (Nat.mul_pos hr hc)
+  simp only [div_eq_mul_inv, ← sum_mul]
+  rw [hpar]
+  push_cast
+  push_cast at hne
+  field_simp
+
+theorem zerosLike_build {β : Type} (nr nc : ℕ) (g : ℕ → ℕ → β) :
+    (zerosLike (build nr nc g) : RImg ℝ) = build nr nc (fun _ _ => (0 : ℝ)) := by
+  unfold zerosLike
+  rw [build_map]
+  apply build_congr
+  intro _ _ _ _
+  simp
+
+/-- **summed detector intensity = total exit-wave intensity** (Parseval through the
+ortho-normalised FFT, the mode sum and the `fftshift`) -/
+theorem rsum_detector {nr nc : ℕ} (hr : 0 < nr) (hc : 0 < nc) (ws : List (Img ℝ)) (hws : ∀ w ∈ ws, Rect nr nc w) :
+    rsum (detector ws) = (ws.map energy).sum := by
+  unfold detector
+  rw [rsum_fftshift2]
+  unfold intensitiesCorner
+  cases ws with
+  | nil => simp [sumModes, zerosLike, rsum_eq]
+  | cons w rest =>
+    have hw := hws w List.mem_cons_self
+    obtain ⟨g, hg⟩ := hw.cx_build
+    have hz : Rect nr nc (zerosLike ((w :: rest).headD []) : RImg ℝ) := by
+      simp only [List.headD_cons]
+      rw [hg, zerosLike_build]; exact rect_build _ _ _
+    have hz0 : rsum (zerosLike ((w :: rest).headD []) : RImg ℝ) = 0 := by
+      simp only [List.headD_cons]
+      rw [hg, zerosLike_build, rsum_build]; simp
+    have hmodes : ∀ x ∈ (w :: rest).map modeIntensity, Rect nr nc x := by
+      intro x hx
+      obtain ⟨v, hv, rfl⟩ := List.mem_map.1 hx
+      exact (rsum_modeIntensity hr hc (hws v hv)).1
+    have := (sumModes_rsum _ hmodes _ hz).2
+    show rsum (sumModes _ ((w :: rest).map modeIntensity)) = _
+    rw [this, hz0, zero_add, List.map_map]
+    congr 1
+    apply List.map_congr_left
+    intro v hv
+    exact (rsum_modeIntensity hr hc (hws v hv)).2
+
 end QuantemModel.PtychoOps
